@@ -16,3 +16,13 @@ package lokiapi
 //@   inline
 //@ func NewOptLabelSet
 //@   inline
+//@ func (*QueryResponseData).SetScalarResult
+//@   inline
+//@ func (*QueryResponseData).SetVectorResult
+//@   inline
+//@ func (*QueryResponseData).SetMatrixResult
+//@   inline
+//@ func (QueryResponseData).GetStreamsResult
+//@   inline
+//@ func (QueryResponseData).IsStreamsResult
+//@   inline
